@@ -53,6 +53,7 @@ def check(ctx):
 
     c03.r03_7(ctx)  # the segment tables the search runs on are SO-sorted
     c03.r03_4(ctx, None)
+    r01_8(ctx)
     ctx.not_decided += [
         "utils.reverse_cigar's index arithmetic (that the reversed CIGAR is the op-wise reverse)",
         "view.run's construction of the node->interval map and contig lengths from the rGFA tags (checked only for call-site agreement in C03/C04)",
@@ -730,3 +731,71 @@ def r01_46_unstable(ctx, m):
         fw = [n for n in walk_own(f.node) if isinstance(n, ast.For) and norm(n.iter) == norm(revs[0].iter.args[0])]
         ok = ok and len(fw) == 1
     ctx.check(ok, "R01.4", f.where(), "segments of a reverse-orientation interval are emitted in reversed order, forward ones in SO order", key_of(f, "reversed-emission"))
+
+
+def r01_8(ctx):
+    """view.run's graph tables for --format stable: every node maps to (contig = SN value, start = int(SO),
+    end = int(SO) + int(LN)); the reference contigs are those of rank 0; their length is the sum of their segments' LN."""
+    from ..core import resolve_expr
+
+    repo = ctx.repo
+    view = repo.module("gaftools.cli.view", "R01.8")
+    run = None
+    ctor = None
+    for f in view.funcs.values():
+        for c in walk_own(f.node):
+            if isinstance(c, ast.Call) and norm(c.func) == "StableNode":
+                run, ctor = f, c
+    if run is None:
+        raise AnalysisError("R01.8", view.relpath, "view does not build the node -> stable interval map")
+    ctx.analysed_func(run)
+    # the enclosing comprehension / loop: key and iteration
+    comp = None
+    for n in walk_own(run.node):
+        if isinstance(n, ast.DictComp) and any(x is ctor for x in ast.walk(n.value)):
+            comp = n
+    args = {k.arg: k.value for k in ctor.keywords}
+    cparams = ["contig_id", "start", "end"]
+    for i, a in enumerate(ctor.args):
+        args[cparams[i]] = a
+    if comp is None or set(args) != set(cparams):
+        raise AnalysisError("R01.8", run.where(ctor), "node map is not a dict comprehension over the graph's nodes with StableNode(contig_id, start, end)")
+    kv = norm(comp.key)
+    gen = comp.generators[0]
+    node = None
+    import re as _re
+
+    mm = _re.fullmatch(r"(\w+)\[" + _re.escape(kv) + r"\]\.tags\['SN'\]\[1\]", norm(args["contig_id"]))
+    if not mm:
+        raise AnalysisError("R01.8", run.where(ctor), f"contig of a node is `{norm(args['contig_id'])}`: not the recognised <graph>[id].tags['SN'][1] form")
+    ok = not gen.ifs and norm(gen.target) == kv and norm(gen.iter) in (f"{mm.group(1)}.nodes", f"{mm.group(1)}.nodes.keys()", f"list({mm.group(1)}.nodes)")
+    if mm:
+        g_ = mm.group(1)
+        so = f"int({g_}[{kv}].tags['SO'][1])"
+        ln = f"int({g_}[{kv}].tags['LN'][1])"
+        ok = ok and norm(args["start"]) == so and norm(args["end"]) in (f"{so} + {ln}", f"{ln} + {so}")
+    ctx.check(ok, "R01.8", run.where(ctor), "every node of the graph maps to its stable interval: contig = SN value, start = int(SO), end = int(SO) + int(LN), keyed by the node id, no node filtered", key_of(run, f"node-map:{norm(ctor)[:150]}"), contig=norm(args["contig_id"]), start=norm(args["start"]), end=norm(args["end"]))
+    # reference contigs: rank 0
+    refs = [st for st in walk_own(run.node) if isinstance(st, ast.Assign) and isinstance(st.value, ast.ListComp) and ".contigs" in norm(st.value)]
+    okr = False
+    for st in refs:
+        gen = st.value.generators[0]
+        cv = norm(gen.target)
+        okr = len(gen.ifs) == 1 and norm(gen.ifs[0]).replace(" ", "") in (f"gfa_file.contigs[{cv}]==0", f"0==gfa_file.contigs[{cv}]") and norm(st.value.elt) == cv and norm(gen.iter) in ("gfa_file.contigs", "gfa_file.contigs.keys()")
+        if okr:
+            refvar = norm(st.targets[0])
+            break
+    ctx.check(okr, "R01.8", run.where(), "the reference contigs are exactly the contigs whose rank (SR) is 0", key_of(run, f"ref-contigs:{[norm(s.value) for s in refs]}"))
+    # contig lengths: get_contig_length(contig, throw_warning=False) for each reference contig; = sum of LN over the path
+    lens = [st for st in walk_own(run.node) if isinstance(st, ast.Assign) and isinstance(st.targets[0], ast.Subscript) and isinstance(st.value, ast.Call) and isinstance(st.value.func, ast.Attribute) and st.value.func.attr == "get_contig_length"]
+    okl = False
+    if lens and okr:
+        st = lens[0]
+        loop = next((l for l in walk_own(run.node) if isinstance(l, ast.For) and any(x is st for x in l.body)), None)
+        okl = loop is not None and norm(loop.iter) == refvar and norm(st.targets[0].slice) == norm(loop.target) and norm(st.value.args[0]) == norm(loop.target) and any(k.arg == "throw_warning" and const_value(k.value) is False for k in st.value.keywords)
+    gcl = repo.func("gaftools.gfa", "GFA.get_contig_length", "R01.8")
+    ctx.analysed_func(gcl)
+    rets = [r for r in walk_own(gcl.node) if isinstance(r, ast.Return) and r.value is not None]
+    src = resolve_expr(gcl.node, rets[-1].value) if rets else ""
+    oks = src.replace(" ", "") in ("sum([int(self.nodes[x].tags['LN'][1])forxinself.get_path(chrom,throw_warning)])", "sum((int(self.nodes[x].tags['LN'][1])forxinself.get_path(chrom,throw_warning)))")
+    ctx.check(okl and oks, "R01.8", run.where(), "the length of a reference contig (path length of a collapsed record) is the sum of the LN tags of all its segments", key_of(run, f"contig-len:{okl}:{src[:80]}"), expr=src)
